@@ -22,6 +22,7 @@ ASSUMPTIONS = ["round trip over arbitrary nested values and arbitrary split poin
 TRUSTED = ["models of memchr, slice get/first/len, btoi on literals"]
 
 MUTANTS = [
+    {"name": "chunked-writer-passes-large-input-first", "edits": [{"file": "src/protocol/packet.rs", "old": "                let mut b = Vec::with_capacity(1024);\n                let size = encode_resp(&mut b, &resp)?;\n                f(&b);\n                Ok((size, f))\n", "new": "                let mut writer = ChunkedWriter::new(f);\n                let size = encode_resp(&mut writer, &resp)?;\n                Ok((size, writer.finish()))\n"}, {"file": "src/protocol/packet.rs", "old": "impl DecodedPacket for RespPacket {", "new": "const ENCODE_CHUNK_SIZE: usize = 1024;\n\n// Collects the small pieces written by the encoder and hands them over in chunks,\n// so that a large payload does not need to be copied to a temporary buffer first.\nstruct ChunkedWriter<F: FnMut(&[u8])> {\n    buf: Vec<u8>,\n    f: F,\n}\n\nimpl<F: FnMut(&[u8])> ChunkedWriter<F> {\n    fn new(f: F) -> Self {\n        Self {\n            buf: Vec::with_capacity(ENCODE_CHUNK_SIZE),\n            f,\n        }\n    }\n\n    fn flush_buf(&mut self) {\n        if !self.buf.is_empty() {\n            (self.f)(&self.buf);\n            self.buf.clear();\n        }\n    }\n\n    fn finish(mut self) -> F {\n        self.flush_buf();\n        self.f\n    }\n}\n\nimpl<F: FnMut(&[u8])> io::Write for ChunkedWriter<F> {\n    fn write(&mut self, data: &[u8]) -> io::Result<usize> {\n        if data.len() >= ENCODE_CHUNK_SIZE {\n            // Large payload, pass it through without copying.\n            (self.f)(data);\n            return Ok(data.len());\n        }\n        if self.buf.len() + data.len() > ENCODE_CHUNK_SIZE {\n            self.flush_buf();\n        }\n        self.buf.extend_from_slice(data);\n        Ok(data.len())\n    }\n\n    fn flush(&mut self) -> io::Result<()> {\n        self.flush_buf();\n        Ok(())\n    }\n}\n\nimpl DecodedPacket for RespPacket {"}], "expect": "C15.D5:writer-keeps-order"},
     {"name": "encoder-prefix-swapped", "file": "src/protocol/encoder.rs", "old": "        Resp::Error(s) => encode_simple_element(writer, b\"-\", s),\n        Resp::Simple(s) => encode_simple_element(writer, b\"+\", s),", "new": "        Resp::Error(s) => encode_simple_element(writer, b\"+\", s),\n        Resp::Simple(s) => encode_simple_element(writer, b\"-\", s),", "expect": "C15.D1"},
     {"name": "split-before-parse", "file": "src/protocol/stateless.rs", "old": "    let (resp, consumed) = parse_resp(buf)?;\n    let data = buf.split_to(consumed).freeze();", "new": "    let (resp, consumed) = match parse_resp(buf) {\n        Ok(r) => r,\n        Err(e) => {\n            buf.clear();\n            return Err(e);\n        }\n    };\n    let data = buf.split_to(consumed).freeze();", "expect": "C15.D2"},
     {"name": "cr-without-lf-is-error", "file": "src/protocol/stateless.rs", "old": "    let lf_index = memchr(LF, buf).ok_or(ParseError::NotEnoughData)?;", "new": "    let lf_index = match memchr(CR, buf) {\n        None => return Err(ParseError::NotEnoughData),\n        Some(i) => {\n            if buf.get(i + 1) != Some(&LF) {\n                return Err(ParseError::InvalidProtocol);\n            }\n            i + 1\n        }\n    };", "expect": "C15.D3:line"},
@@ -66,6 +67,8 @@ def run(ctx):
     _consume(ctx)
     _hint(ctx)
     _exact_incompleteness(ctx)
+    ctx.rule("C15.D5", "every io::Write adaptor of this crate that the encoder can write through keeps the byte order: a writer that buffers part of its input in a field and hands other input straight to its sink does so only after it drained the buffer")
+    _writers_keep_order(ctx)
 
 
 def _line_table(ctx):
@@ -441,3 +444,58 @@ def _exact_incompleteness(ctx):
             ctx.check(why is not None, R, "exact:%s#%d" % (b.path.rsplit("::", 1)[-1], n), site(b, bb, i), ok=why or "",
                       bad="%s answers NotEnoughData on a condition that is not one of the exact ones (empty buffer, no LF, bulk shorter than declared length + 2): a complete packet can be judged incomplete, the decoder then waits for bytes that never come and the connection stalls" % b.path)
     ctx.floor(R, "NotEnoughData constructions in the decoder", n, 3)
+
+
+
+BUFFER_TYPES = ("std::vec::Vec<u8>", "bytes::BytesMut", "std::collections::VecDeque<u8>", "std::string::String")
+DRAINS = ("clear", "drain", "split", "split_to", "split_off", "truncate", "take")
+
+
+def _writers_keep_order(ctx):
+    F = ctx.F
+    R = "C15.D5"
+    n = 0
+    for im in F.impls:
+        if im.get("trait_n") != "std::io::Write" or im.get("crate") != "undermoon" or im.get("mac") in ("automock", "mock"):
+            continue
+        w = next((F.bodies.get(norm(it["def"])) for it in im["items"] if it["name"] == "write"), None)
+        if w is None or "tests::" in w.path:
+            continue
+        n += 1
+        ctx.analysed(w)
+        du = DefUse(w)
+        du.follow_accessors = True
+        dom = cfg.dominators(w)
+        adt = im.get("self_adt_n")
+        a = F.adt(adt) if adt else None
+        bufs = {f["name"] for f in a.fields() if f["ty"].startswith(BUFFER_TYPES)} if a is not None and a.variants else set()
+        appends, passes, drains = [], [], []
+        for bb, t in w.calls():
+            if not t["args"]:
+                continue
+            c = callee_of(t) or callee_decl(t) or ""
+            rsl = du.slice_operand(t["args"][0], deep=False)
+            rf = {nm for ad, nm in rsl.fields if norm(ad or "") == adt}
+            data_in = any(du.slice_operand(x, deep=True).has_param(2) for x in t["args"][1:])
+            if rf & bufs:
+                if data_in:
+                    appends.append(bb)
+                elif c.rsplit("::", 1)[-1] in DRAINS:
+                    drains.append(bb)
+            elif rf and data_in:
+                passes.append((bb, c))     # the input goes to something held in another field: the sink / inner writer
+            elif c in F.bodies and rsl.has_param(1) and not data_in:
+                fam = F.family(F.bodies[c]) if hasattr(F, "family") else [F.bodies[c]]
+                for x in fam:
+                    dx = DefUse(x)
+                    for b2, t2 in x.calls():
+                        if t2["args"] and (callee_of(t2) or "").rsplit("::", 1)[-1] in DRAINS and {nm for ad, nm in dx.slice_operand(t2["args"][0], deep=False).fields if norm(ad or "") == adt} & bufs:
+                            drains.append(bb)
+        key = "writer-keeps-order:%s" % (adt or w.path).rsplit("::", 1)[-1]
+        if not (appends and passes):
+            ctx.holds(R, key, site(w), "no mixing of buffered and passed-through input (buffer fields %s, appends %d, pass-through %d)" % (sorted(bufs), len(appends), len(passes)))
+            continue
+        bad = [(bb, c) for bb, c in passes if not any(d in dom.get(bb, ()) and d != bb for d in drains)]
+        ctx.check(not bad, R, key, site(w, bad[0][0]) if bad else site(w), ok="input is handed to the sink only after the buffered bytes were drained",
+                  bad="write() hands its input straight to the sink (%s) while earlier input may still sit in the buffer field %s: those bytes are emitted after it, the encoding of a value with a large element is no longer the RESP encoding" % (bad[0][1] if bad else "", sorted(bufs)))
+    ctx.note("crate-local io::Write adaptors examined: %d" % n)
